@@ -276,11 +276,17 @@ def cross(
     if index_ is None:
         return False
 
-    for idx in range(index_, index_ - length, -1):
+    for idx in range(index_, max(index_ - length, 0), -1):
         reading_one = reading_by_index(candles, indicator_two, idx)
         reading_two = reading_by_index(candles, indicator_one, idx)
         prev_one = reading_by_index(candles, indicator_one, idx - 1)
         prev_two = reading_by_index(candles, indicator_two, idx - 1)
+
+        if not all(
+            isinstance(value, (float, int))
+            for value in (reading_one, reading_two, prev_one, prev_two)
+        ):
+            continue
 
         if (reading_one < reading_two and prev_one <= prev_two) or (
             reading_one > reading_two and prev_one >= prev_two
@@ -300,7 +306,7 @@ def crossover(
     if index_ is None:
         return False
 
-    for idx in range(index_, index_ - length, -1):
+    for idx in range(index_, max(index_ - length, 0), -1):
         if above(candles, indicator_one, indicator_two, idx) and below(
             candles, indicator_one, indicator_two, idx - 1
         ):
@@ -319,7 +325,7 @@ def crossunder(
     if index_ is None:
         return False
 
-    for idx in range(index_, index_ - length, -1):
+    for idx in range(index_, max(index_ - length, 0), -1):
         if below(candles, indicator_one, indicator_two, idx) and above(
             candles, indicator_one, indicator_two, idx - 1
         ):
